@@ -12,7 +12,7 @@ ARTEFACTS = ["G1-consts", "G12-io"]
 EXTRA_PROPS = [("B3.Props.C11T", "B3/Props/C11T.lean")]   # theorems about the code translated from the sources
 PROPS_MODULE = "B3.Io.Props"
 PROPS_PATH = "B3/Io/Props.lean"
-RULE = ("(1) scripted readers through update_reader: ALL event sequences up to length 3 (quick) / 5 (thorough; length 6 was run once by the builder: 137k scripts) over {data 1, data 65536, "
+RULE = ("(1) scripted readers through update_reader: ALL event sequences up to length 3 (quick) / 4 (thorough; lengths 5 and 6 were run once: 137k scripts) over {data 1, data 65536, "
         "data 70000 (split delivery), data short, interrupted, fail, eof}, plus random longer ones crossing 1024-byte and 64 KiB "
         "boundaries, short-read events and distinct error kinds; result, read calls, events consumed, count() and finalize() compared "
         "with the model (copy_wide over the event list feeding the hasher model) and the spec hash of the bytes yielded before the first "
@@ -66,7 +66,7 @@ class FileStage:
 
 def stages(tier, seed, witness_search=False):
     rng = Rng(seed)
-    exh = 3 if tier == "quick" else 5
+    exh = 3 if tier == "quick" else 4
     n = 150 if tier == "quick" else 3000
     if witness_search:
         n *= 3
